@@ -322,6 +322,7 @@ def match_known(v, known):
 # --------------------------------------------------------------------------- driver
 
 TIER_DEFAULT_BUDGET = {"quick": 240.0, "thorough": 2400.0}
+TIER_MIN_BUDGET = {"quick": 1800.0, "thorough": 14400.0}
 
 def drive(prop, tier, seed, workers=None, replay=None, verbose=False):
     t_start = time.time()
@@ -332,7 +333,11 @@ def drive(prop, tier, seed, workers=None, replay=None, verbose=False):
     workers = workers or int(os.environ.get("VERIF_WORKERS", "0")) or min(16, os.cpu_count() or 4)
     all_cases = mod.cases(tier, seed)
     workers = max(1, min(workers, len(all_cases)))
-    budget = float(os.environ.get("VERIF_BUDGET_S", getattr(mod, "BUDGET_S", TIER_DEFAULT_BUDGET)[tier]))
+    # wall-clock watchdog per worker (not a verdict: exceeding it is INCONCLUSIVE).  The per-check values were sized on
+    # 16 idle cores; fewer cores or a loaded machine stretch a worker's share, so a generous floor applies
+    budget = max(float(getattr(mod, "BUDGET_S", TIER_DEFAULT_BUDGET)[tier]), TIER_MIN_BUDGET[tier])
+    if os.environ.get("VERIF_BUDGET_S"):
+        budget = float(os.environ["VERIF_BUDGET_S"])
     tmpdir = os.path.join(VERIF_ROOT, ".work", f"{prop}_{tier}_{seed}_{os.getpid()}")
     os.makedirs(tmpdir, exist_ok=True)
     procs = []
